@@ -7,7 +7,7 @@ import ast
 from ..astutil import calls_in, norm_stmt, path_of, unparse, walk_scope, walk_stmts
 from ..facts import Fact, atoms, enumerate_paths
 from ..report import Ctx
-from .common import NotTabulable, OrderEval, always_before, expand, increment_of, need, node_of, single_defs, stmts_matching
+from .common import NotTabulable, OrderEval, always_before, expand, increment_of, ingredients_along, need, node_of, single_defs, stmts_matching
 
 BF = "happysimulator/sketching/bloom_filter.py"
 CMS = "happysimulator/sketching/count_min_sketch.py"
@@ -379,7 +379,23 @@ def rule_topk_tdigest(ctx: Ctx) -> None:
                 if not (isinstance(st, ast.AugAssign) and isinstance(st.op, ast.Add) and unparse(st.value) == f"counter.{t.attr}"):
                     bad.append(norm_stmt(st))
     errs = [st for st in walk_stmts(mg.node.body) if isinstance(st, ast.AugAssign) and isinstance(st.target, ast.Attribute) and st.target.attr == "error"]
-    ctx.ob("C20-5", "G9", mg, errs[0] if errs else None, not bad and len(errs) == 2 and n_w >= 3, "TopK.merge adds the other sketch's count and error bound for every item (tracked before or added by the merge): the reported error stays an upper bound"
+    # per item of the other sketch: the error is added exactly once on every way through the loop body on which the item is tracked
+    # afterwards (it may be written once after an if/else or once in each branch)
+    mff_ = ctx.flow(mg)
+    lps_ = [n_ for n_ in mff_.cfg.nodes if n_.kind == "for" and any(e_ is x_ for e_ in errs for x_ in ast.walk(n_.ast))]
+    per_item = bool(errs) and len(lps_) == 1
+    if per_item:
+        head = lps_[0]
+        body_first = next(s_ for s_, lab in head.succ if any(s_.ast is b_ or any(s_.ast is y for y in ast.walk(b_)) for b_ in head.ast.body) ) if head.succ else None
+        for p_ in (enumerate_paths(mff_, body_first, stop=lambda x: x is head) if body_first is not None else []):
+            if p_.end not in ("stop", "back"):
+                continue
+            k_ = sum(1 for n_ in p_.nodes if n_.kind == "stmt" and any(n_.ast is e_ for e_ in errs))
+            untracked = ("notin", "counter.item", "self._counters") in p_.facts
+            if k_ > 1 or (k_ == 0 and not untracked):
+                per_item = False
+                bad.append(f"error added {k_} time(s) on [{p_.describe()[:100]}]")
+    ctx.ob("C20-5", "G9", mg, errs[0] if errs else None, not bad and per_item and n_w >= 2, "TopK.merge adds the other sketch's count and error bound for every item (tracked before or added by the merge): the reported error stays an upper bound"
            + ("" if not bad else " — " + bad[0]))
     td = prog.cls(TD, "TDigest")
     a = td.methods["add"]
@@ -462,7 +478,16 @@ def rule_reservoir_merkle(ctx: Ctx) -> None:
     ok = len(fin) == 1 and unparse(fin[0].value).replace(" ", "") == "new_reservoir[:self._size]" and len(lp) == 1 and unparse(lp[0].iter).replace(" ", "") == "range(min(self._size,combined_total))" \
         and len(stmts_matching(mg, "self._total_count = combined_total")) == 1 and len(stmts_matching(mg, "combined_total = self._total_count + other._total_count")) == 1
     apps = [c for c in calls_in(lp[0]) if path_of(c.func) == "new_reservoir.append"] if lp else []
-    ok = ok and len(apps) == 2 and "_guard" not in "" and _guard_params(mg) == {"self._size"}
+    one_per_iter = bool(apps) and bool(lp)
+    if one_per_iter:
+        rff_ = ctx.flow(mg)
+        head = next(n_ for n_ in rff_.cfg.nodes if n_.kind == "for" and n_.ast is lp[0])
+        app_nodes = [node_of(rff_.cfg, c) for c in apps]
+        first = next((s_ for s_, _ in head.succ if any(s_.ast is y for b_ in lp[0].body for y in ast.walk(b_))), None)
+        for p_ in (enumerate_paths(rff_, first, stop=lambda x: x is head) if first is not None else []):
+            if p_.end in ("stop", "back") and sum(1 for n_ in p_.nodes if n_ in app_nodes) != 1:
+                one_per_iter = False
+    ok = ok and one_per_iter and _guard_params(mg) == {"self._size"}
     ctx.ob("C20-7", "G1", mg, fin[0] if fin else None, ok, "merging two reservoirs of equal capacity draws min(k, n1 + n2) items, one per iteration, and records the combined stream length")
     # Merkle
     mt = prog.cls(MK, "MerkleTree")
@@ -499,13 +524,15 @@ def rule_reservoir_merkle(ctx: Ctx) -> None:
             kinds["leaf"] += 1
             if same is not False or not (la is True or lb is True):
                 bad.append(f"[{p.describe()[:80]}] union range returned although neither node is a leaf / hashes equal")
-        elif path_of(rv) is not None:
+        elif path_of(rv) is not None or (isinstance(rv, ast.BinOp) and isinstance(rv.op, ast.Add)):
             kinds["descend"] += 1
             if same is not False or la is not False or lb is not False or rec != ["_diff_nodes(a.left,b.left)", "_diff_nodes(a.right,b.right)"]:
                 bad.append(f"[{p.describe()[:80]}] descent does not compare both child pairs ({rec})")
-            ext = [nd for nd in p.nodes if nd.kind == "stmt" and isinstance(nd.ast, ast.Expr) and isinstance(nd.ast.value, ast.Call) and path_of(nd.ast.value.func) == f"{path_of(rv)}.extend"]
-            if len(ext) != 2:
-                bad.append("not both child results are kept")
+            # both recursive results reach the returned list, however it is assembled (extend twice, `left + right`, ...)
+            _, rts = ingredients_along(p.nodes)
+            ing = {i_.replace(" ", "") for i_ in (rts[-1][1] if rts else set())}
+            if not {"_diff_nodes(a.left,b.left)", "_diff_nodes(a.right,b.right)"} <= ing:
+                bad.append(f"not both child results are kept (returned list holds {sorted(ing)})")
         else:
             bad.append(f"unrecognised return `{unparse(rv)}`")
     okl = len(stmts_matching(dn, "start = min(a.key_range.start, b.key_range.start)")) == 1 and len(stmts_matching(dn, "end = max(a.key_range.end, b.key_range.end)")) == 1
@@ -548,10 +575,10 @@ def rule_reservoir_merkle(ctx: Ctx) -> None:
             for p in enumerate_paths(ff, w):
                 if p.end == "exit" and not any(n in roots for n in p.nodes[1:]):
                     ok = False
-        src = [unparse(n.ast.value).replace(" ", "") for n in roots]
-        ok = ok and all(s in ("_build_tree(sorted_items)", "None") for s in src)
-        srt = [s for s in walk_stmts(fn.node.body) if isinstance(s, ast.Assign) and path_of(s.targets[0]) == "sorted_items"]
-        ok = ok and all(unparse(s.value).replace(" ", "") in (f"sorted({target}._data.items(),key=lambdakv:kv[0])", "sorted(data.items(),key=lambdakv:kv[0])") for s in srt) and bool(srt)
+        sd_ = single_defs(fn)
+        src = [unparse(expand(n.ast.value, sd_)).replace(" ", "") for n in roots]
+        built = (f"_build_tree(sorted({target}._data.items(),key=lambdakv:kv[0]))", "_build_tree(sorted(data.items(),key=lambdakv:kv[0]))")
+        ok = ok and all(s in built + ("None",) for s in src) and any(s in built for s in src)
         ctx.ob("C20-8", "G2", fn, writes[0].ast if writes else None, ok, f"MerkleTree.{q}: after the data changes the root is rebuilt from all items in key order (the root hash always describes the current map)")
 
 
